@@ -3,13 +3,13 @@
    native types; Z, positive, nat stay extracted datatypes; no Extract Constant. *)
 From Coq Require Import ZArith List.
 From Coq Require Extraction ExtrOcamlBasic.
-From MV Require Import Base.Res Model.EventTree Model.TreeOps Model.Num Model.Envelope Model.Convert Model.Equality Model.Numbers Model.Tools Model.IdTree Model.Heap.
+From MV Require Import Base.Res Model.EventTree Model.TreeOps Model.Num Model.Envelope Model.Convert Model.Equality Model.Numbers Model.Tools Model.IdTree Model.Heap Model.TieAll Model.ListOps.
 Extraction Language OCaml.
 
 Extraction "model.ml"
   dur dsum height wfb starts index_at ranges at_ flat
   cut_out cut_off split_at split_child_at squash_in slide_in extend_until extend_until_default
-  sequentialize concatenate seq_add get_by_tag set_by_tag del_by_tag remove_by tie_by lslice with_children children
+  sequentialize concatenate seq_add get_by_tag set_by_tag del_by_tag remove_by tie_by tie_all set_dur get_int set_int del_int py_slice ev_mul generic_add lslice with_children children
   value_at curve_shape_at point_at points_in_range integrate average is_static sample_at env_extend_until
   env_cut_out env_cut_off env_split_at of_points to_points pdur pstarts
   seconds_env convert convert_history metrize join_tempo
